@@ -318,6 +318,8 @@ class Outcome(object):
         self.finished = False
         self.consumer_error = None
         self.killed_when = None
+        self.interrupted = False
+        self.leaving = False
 
 
 def run_scenario(run, tape, sc):
@@ -342,6 +344,7 @@ def run_scenario(run, tape, sc):
             world.behaviour[tag] = sc.behaviours[i]
             world.late_eps[tag] = sc.late_eps[i]
     out.ids = ids
+    sigproxy = mp.signal_proxy()
     osproxy = mp.os_proxy(_real_os)
     osproxy.kill_raises = bool(getattr(sc, 'kill_fails', False)) and getattr(sc, 'allow_kill_failure', False)
 
@@ -352,6 +355,17 @@ def run_scenario(run, tape, sc):
                        comparison_data_extractor=DataExtractor(world) if sc.data_extractor else None, compare_execution_config=cfg)
         gen = eq.run_comparison()
         killer = None
+        if getattr(sc, 'sigint_at', None) is not None and sc.dedicated:
+            me = sim.current
+
+            def terminal():
+                sim.sleep(sc.sigint_at)
+                if out.finished or out.leaving:
+                    return
+                run.fault('sigint_to_process_group')
+                mp.sigint_group(sigproxy)
+                sim.interrupt(me, KeyboardInterrupt())
+            sim.spawn(terminal, name='terminal')
         try:
             k = 0
             while True:
@@ -363,11 +377,21 @@ def run_scenario(run, tape, sc):
                             out.consumer_error = ex
                     break
                 if sc.consumer_pause and k and k % 2 == 0:
-                    sim.sleep(sc.consumer_pause)
+                    try:
+                        sim.sleep(sc.consumer_pause)
+                    except KeyboardInterrupt as ex:
+                        out.consumer_error = ex
+                        out.interrupted = True
+                        break
                 t0 = sim.now
                 try:
                     c = next(gen)
                 except StopIteration:
+                    break
+                except KeyboardInterrupt as ex:
+                    # Ctrl-C in the terminal: the whole process group got SIGINT; the parent abandons the run
+                    out.consumer_error = ex
+                    out.interrupted = True
                     break
                 out.durations.append(sim.now - t0)
                 out.comparisons.append(c)
@@ -382,6 +406,7 @@ def run_scenario(run, tape, sc):
                         live[-1].killed_by = 'external'
                         live[-1].kill()
         finally:
+            out.leaving = True
             if sc.consumer_pause:
                 sim.sleep(sc.consumer_pause)       # ... and also before it lets go of the generator
             gen.close()
@@ -397,7 +422,7 @@ def run_scenario(run, tape, sc):
         if killer is not None:
             sim.join(killer, 1.0)
 
-    pairs = [(EQ.__name__, 'mp', mp), (EQ.__name__, 'os', osproxy), (EQ.__name__, 'time', sim.time)]
+    pairs = [(EQ.__name__, 'mp', mp), (EQ.__name__, 'os', osproxy), (EQ.__name__, 'time', sim.time), (EQ.__name__, 'signal', sigproxy)]
     with seams.rebind(pairs):
         try:
             sim.run_main(main)
